@@ -165,7 +165,7 @@ Theorem observers_spec s : Inv s ->
      get_index s t = Ok (Z.of_nat k) /\
      get_prev s t = Ok (match k with O => None | S k' => nth_error (abs s) k' end) /\
      get_next s t = Ok (nth_error (abs s) (S k))) /\
-  (forall k1 k2 a b, nth_error (abs s) k1 = Some a -> nth_error (abs s) k2 = Some b -> (k1 <= k2)%nat ->
+  (forall k1 k2 a b, nth_error (abs s) k1 = Some a -> nth_error (abs s) k2 = Some b ->
      iter_range s a b = Ok (firstn (k2 + 1 - k1) (skipn k1 (abs s)))) /\
   (forall t, ~ In t (abs s) ->
      get_index s t = Err ValueError /\ get_prev s t = Err ValueError /\ get_next s t = Err ValueError /\
@@ -233,3 +233,14 @@ Proof.
   split; [reflexivity|]. split; [exact I'|]. split; [exact Ea|]. split; [exact Tt|]. split; [exact To|]. split; [exact Hp|].
   intros k' u Hu. destruct I' as [I0 _]. split; [apply obs_position|apply obs_index]; assumption.
 Qed.
+
+(* a refused from_tokens in the middle of a history leaves the current store in place *)
+Theorem step_from_tokens_refused LF s ts : ~ (all_free (s_toks s) (map P ts) /\ NoDup (map P ts)) ->
+  step LF s (OFromTokens ts) = (s, Err ValueError).
+Proof. intro H. cbn [step]. rewrite (from_tokens_refused LF _ _ _ H). reflexivity. Qed.
+
+(* iter over a reversed pair of tokens lying in different blocks of the example state: nothing *)
+Lemma ex_iter_reversed : nth_error (abs ex_s) 5 = Some 6%positive /\ nth_error (abs ex_s) 1 = Some 2%positive /\
+  hnd ex_s 6%positive = Some (5%positive, 0) /\ hnd ex_s 2%positive = Some (2%positive, 1) /\
+  iter_range ex_s 6%positive 2%positive = Ok [].
+Proof. rewrite (proj2 ex_inv). repeat split; vm_compute; reflexivity. Qed.
